@@ -3,6 +3,7 @@
   Property theorems only; helper lemmas live in Lemmas/.
 -/
 import SqlDt.Lemmas.Div
+import SqlDt.Lemmas.FloatUse
 namespace SqlDt.C07
 open SqlDt Gen
 
@@ -125,6 +126,12 @@ theorem accessors_eq_extract (t : Int) (ht : isValidTime t) :
   rw [isValidTime_iff] at ht
   rw [Time.extract_eq _ ht.1, Time.hour_eq _ ht.1, Time.minute_eq _ ht.1]
   exact ⟨rfl, rfl⟩
+
+/-- The `second()` accessor (of a time of day, hence of a timestamp and an Oracle-style date, which delegate to it) is
+    the double NEAREST to `(seconds·10^6 + µs) / 10^6`: one correctly rounded division of the exact sub-minute count. -/
+theorem second_correctly_rounded (t : Int) (ht : isValidTime t) :
+    Time.second t = F64.round false (t % 60000000).toNat 1000000 :=
+  Lemmas.Time.second_eq t ((isValidTime_iff t).1 ht)
 
 /-- Non-vacuity: the hypotheses are met by the extreme and an interior value. -/
 example : isValidTime 0 ∧ isValidTime 86399999999 ∧ isValidTimestamp (Timestamp.new (-719162) 0) ∧
